@@ -311,6 +311,28 @@ func nestSets() []*Set {
 	h.add(inOneof(field("oe2", 5, kindSpec{t: tMessage, name: "." + pkg + ".Empty"}), ho))
 	h.add(inOneof(field("os", 6, kindSpec{t: tString}), ho))
 	f.msg(h)
+	// enums at different nesting depths, in an order in which depth-first and breadth-first numbering differ:
+	// an enum inside a nested message of one top-level message, then enums directly inside later messages
+	eo1 := newMsg("."+pkg, "EnumOuter1")
+	emid := newMsg(eo1.full, "Mid")
+	edeep := newMsg(emid.full, "Deep")
+	edeep.nestEnum(enum("EC", "EC_ZERO", 0, "EC_PAID", 1, "EC_VOID", 2))
+	edeep.add(field("state", 1, kindSpec{t: tEnum, name: edeep.full + ".EC"}))
+	emid.nest(edeep)
+	emid.nestEnum(enum("EM", "EM_ZERO", 0, "EM_OPEN", 1))
+	emid.add(field("deep", 1, kindSpec{t: tMessage, name: edeep.full}))
+	emid.add(field("m", 2, kindSpec{t: tEnum, name: emid.full + ".EM"}))
+	eo1.nest(emid)
+	eo1.add(field("mid", 1, kindSpec{t: tMessage, name: emid.full}))
+	f.msg(eo1)
+	eo2 := newMsg("."+pkg, "EnumOuter2")
+	eo2.nestEnum(enum("ED", "ED_ZERO", 0, "ED_LARGE", 1, "ED_SMALL", 2, "ED_HUGE", 3))
+	eo2.add(field("size", 1, kindSpec{t: tEnum, name: eo2.full + ".ED"}))
+	eo2.add(repeated(field("history", 2, kindSpec{t: tEnum, name: eo2.full + ".ED"})))
+	eo2.add(field("state", 3, kindSpec{t: tEnum, name: edeep.full + ".EC"}))
+	eo2.add(field("m", 4, kindSpec{t: tEnum, name: emid.full + ".EM"}))
+	eo2.addMap("by_name", 5, tString, kindSpec{t: tEnum, name: edeep.full + ".EC"})
+	f.msg(eo2)
 	// a message whose only content is a oneof
 	oo := newMsg("."+pkg, "OnlyOneof")
 	ooi := oo.oneof("sum")
